@@ -62,6 +62,10 @@ def case(item):
         exe = os.environ.get("C22_ENCDRV") if not sched else None
         r = s2_mut.run_exe(exe, a, out=pre, timeout=tmo) if exe else enc.session(a, "rel", sched=sched, out=pre, timeout=tmo)
         st = hdr_dump.session_status(r)
+        if st == "timeout":   # wall-clock limit on a possibly overloaded machine: one more run with four times the limit before it counts
+            r = s2_mut.run_exe(exe, a, out=pre, timeout=4 * tmo) if exe else enc.session(a, "rel", sched=sched, out=pre, timeout=4 * tmo)
+            st = hdr_dump.session_status(r)
+            o["info"]["timeout_reruns"] = 1
         shape = label.split("/")[0].replace("sched:", "")
         if st in ("timeout", "incomplete", "crash", "deadlock") and n > 0:
             # is it the length or the shape?  (shapes that cannot complete at all belong to C03/C11)
